@@ -13,6 +13,15 @@ package witness
 //@   defines ret1 ==> ret0 == stateOf(w, origin) && ret0 != nil
 //@   ensures !held(&w.logsMu)
 
+// The verifier list a submitted checkpoint is opened with is built, per request, from the configured keys of exactly
+// the origin named in the request (no list shared between logs).
+//@ func witness.(*Witness).verifiersForOrigin props C14 C15
+//@   requires w != nil && !held(&w.logsMu)
+//@   init gVLCalls == 0
+//@   call note.VerifierList requires [C14,C15] list-is-the-one-collected-from-this-origins-key-map: c_list == verifiers && gVLCalls == 0
+//@   ensures [C14,C15] leaves-the-lock-free: !held(&w.logsMu)
+//@   returns [C14,C15] a-fresh-list-for-this-request: ret1 ==> (gVLCalls == 1 && ret0 == gVLRet)
+
 //@ func witness.(*Witness).updateCheckpoint props C14
 //@   requires w != nil && w.c != nil && submitted != nil && !held(&w.logsMu) && !held(&stateOf(w, origin).mu)
 //@   init gReplaceTried == 0 && gReplaceOK == 0 && gUp == emptyset("set[string]") && gUpTried == emptyset("set[string]")
@@ -37,6 +46,16 @@ package witness
 //@ census [C14,C16] subtree-cosigning-sites: callers torchwood.(*CosignatureSigner).SignSubtree within witness.(*Witness).processSignSubtreeRequest in witness
 //@ census [C14,C16] no-direct-signer-use: callers note.Signer.Sign within none in witness
 //@ census [C14,C16] no-direct-cosigner-use: callers torchwood.(*CosignatureSigner).Sign within none in witness
+// Where the lock store is written at all: checkpoints by updateCheckpoint / processAddEntriesCommit, the witness
+// configuration by PullLogList (whose single Replace rewrites the configuration record it just fetched, never a
+// checkpoint record); new records are only ever created empty.
+//@ census [C14,C15] lock-replace-sites: callers ctlog.LockBackend.Replace within witness.(*Witness).updateCheckpoint, witness.(*Witness).processAddEntriesCommit, witness.(*Witness).PullLogList in witness
+//@ census [C14,C15] lock-create-sites: callers ctlog.LockBackend.Create within witness.(*Witness).PullLogList, witness.NewWitness in witness
+//@ func witness.(*Witness).PullLogList props C14 C15
+//@   requires w != nil && w.c != nil
+//@   init gReplaceTried == 0
+//@   call ctlog.LockBackend.Replace requires [C14,C15] only-the-configuration-record-is-rewritten: c_old == oldConfig && c_new == newConfig && gReplaceTried == 0
+//@   call ctlog.LockBackend.Create requires [C14,C15] new-records-start-empty: isnilb(c_new)
 //@ census [C14] update-callers: callers witness.(*Witness).updateCheckpoint within witness.(*Witness).processAddCheckpointRequest in witness
 //@ pure func stateOf(w Ref, origin string) *witness.logState
 
@@ -47,6 +66,27 @@ package witness
 //@   call witness.(*Witness).updateCheckpoint requires [C14] interpreted-values: c_origin == c.Origin && c_newSize == c.N && c_newHash == c.Hash && c_oldSize == oldSize && c_submitted == n && c_proof == proof && oldSize >= 0
 //@   init gUpdCalls == 0
 //@   returns [C14] cosignatures-come-only-from-the-update-path: !isnilb(ret0) ==> gUpdCalls == 1 && ret0 == gUpdRet
+
+// HTTP front ends: each request is decided on exactly the bytes read from its own body, by one call of the request
+// processor, and only that call's signature bytes are written back (and only when it reported no error).
+//@ func witness.(*Witness).serveSignSubtree props C16
+//@   requires w != nil && w.c != nil && w.s2 != nil && r != nil && !held(&w.logsMu)
+//@   requires forall o string :: !held(&stateOf(w, o).mu)
+//@   call io.ReadAll requires [C16] reads-this-requests-body: c_r == r.Body
+//@   call io.ReadAll bind reqBody = ret0
+//@   call witness.(*Witness).processSignSubtreeRequest requires [C16] decides-on-exactly-the-bytes-of-this-request: c_body == reqBody
+//@   call witness.(*Witness).processSignSubtreeRequest bind sigs = ret0
+//@   call witness.(*Witness).processSignSubtreeRequest bind procErr = ret1
+//@   call http.ResponseWriter.Write requires [C16] writes-only-this-requests-cosignatures: c_recv == rw && c_arg1 == sigs && procErr == nil
+//@ func witness.(*Witness).serveAddCheckpoint props C14
+//@   requires w != nil && w.c != nil && r != nil && !held(&w.logsMu)
+//@   requires forall o string :: !held(&stateOf(w, o).mu)
+//@   call io.ReadAll requires [C14] reads-this-requests-body: c_r == r.Body
+//@   call io.ReadAll bind reqBody = ret0
+//@   call witness.(*Witness).processAddCheckpointRequest requires [C14] decides-on-exactly-the-bytes-of-this-request: c_body == reqBody
+//@   call witness.(*Witness).processAddCheckpointRequest bind sigs = ret0
+//@   call witness.(*Witness).processAddCheckpointRequest bind procErr = ret1
+//@   call http.ResponseWriter.Write requires [C14] writes-only-this-requests-cosignatures: c_recv == rw && c_arg1 == sigs && procErr == nil
 
 //@ func witness.(*Witness).processSignSubtreeRequest props C16
 //@   requires w != nil && w.c != nil && w.s2 != nil && !held(&w.logsMu)
